@@ -1055,6 +1055,12 @@ pub struct Vp8Decoder<R> {
 
     top_border: Vec<u8>,
     left_border: Vec<u8>,
+
+    /// Display size of the frame. While decoding, `frame.width`/`frame.height` hold the size
+    /// rounded up to whole macroblocks: prediction and loop filtering are defined on the
+    /// macroblock-aligned planes, which are cropped to the display size at the end.
+    display_width: u16,
+    display_height: u16,
 }
 
 impl<R: Read> Vp8Decoder<R> {
@@ -1108,6 +1114,9 @@ impl<R: Read> Vp8Decoder<R> {
 
             top_border: Vec::new(),
             left_border: Vec::new(),
+
+            display_width: 0,
+            display_height: 0,
         }
     }
 
@@ -1298,6 +1307,11 @@ impl<R: Read> Vp8Decoder<R> {
 
             self.mbwidth = (self.frame.width + 15) / 16;
             self.mbheight = (self.frame.height + 15) / 16;
+
+            self.display_width = self.frame.width;
+            self.display_height = self.frame.height;
+            self.frame.width = self.mbwidth * 16;
+            self.frame.height = self.mbheight * 16;
 
             self.frame.ybuf = vec![0u8; self.frame.width as usize * self.frame.height as usize];
             self.frame.ubuf =
@@ -2164,6 +2178,27 @@ impl<R: Read> Vp8Decoder<R> {
                 self.loop_filter(mbx, mby, &mb);
             }
         }
+
+        // crop the macroblock-aligned planes to the display size
+        let crop = |buf: &[u8], stride: usize, width: usize, height: usize| -> Vec<u8> {
+            let mut out = Vec::with_capacity(width * height);
+            for row in buf.chunks_exact(stride.max(1)).take(height) {
+                out.extend_from_slice(&row[..width]);
+            }
+            out
+        };
+        let stride = usize::from(self.frame.width);
+        let chroma_stride = usize::from(self.frame.chroma_width());
+        self.frame.width = self.display_width;
+        self.frame.height = self.display_height;
+        let (w, h) = (usize::from(self.frame.width), usize::from(self.frame.height));
+        let (cw, ch) = (
+            usize::from(self.frame.chroma_width()),
+            usize::from(self.frame.chroma_height()),
+        );
+        self.frame.ybuf = crop(&self.frame.ybuf, stride, w, h);
+        self.frame.ubuf = crop(&self.frame.ubuf, chroma_stride, cw, ch);
+        self.frame.vbuf = crop(&self.frame.vbuf, chroma_stride, cw, ch);
 
         Ok(self.frame)
     }
